@@ -33,3 +33,8 @@ START = Root
 
 def grammar(**kw):
     return extract_grammar(list(CLASSES), START, **kw)
+
+
+def grammar_lst(**kw):
+    """Leaf and Lst only (no recursion through ALst): small enough for two-parent obligations"""
+    return extract_grammar([Leaf, Lst], START, **kw)
